@@ -145,8 +145,8 @@ class DiagonalNormal(Distribution):
         """
         super().__init__()
         self._shape = torch.Size(shape)
-        self.mean_ = nn.Parameter(torch.zeros(shape).reshape(1, -1))
-        self.log_std_ = nn.Parameter(torch.zeros(shape).reshape(1, -1))
+        self.mean_ = nn.Parameter(torch.zeros(1, *self._shape))
+        self.log_std_ = nn.Parameter(torch.zeros(1, *self._shape))
         self.register_buffer("_log_z",
                              torch.tensor(0.5 * np.prod(shape) * np.log(2 * np.pi),
                                           dtype=torch.float64),
@@ -177,4 +177,4 @@ class DiagonalNormal(Distribution):
         raise NotImplementedError()
 
     def _mean(self, context):
-        return self.mean
+        return self.mean_.reshape(self._shape)
